@@ -39,6 +39,8 @@ func checkC05(w *World, r *Report) {
 	r.Rule("R05.5", "every TLS primitive takes its config from the manager", 6)
 	r.Rule("R05.6", "shared-secret key derivation agrees on both ends", 1)
 	r.Rule("R05.8", "a server whose TLS configuration demands client certificates admits no clear-text session", 1)
+	r.Rule("R05.12", "the already-encrypted shortcut of the server handshake (no StartTLS, client certificates taken as enforced) is taken only on the listener's own TLS flag, never on peer-supplied data", 5)
+	ruleSecureFlagIsTheListenersOwn(w, r, "R05.12")
 	r.Rule("R05.11", "the client-certificate requirement flag is set on every path that asked the manager for its configuration, failure included", 1)
 	r.Rule("R05.10", "the role-less base certificate Config never acts as a certificate manager", 1)
 	r.Rule("R05.9", "a TLS dial to a resolved address verifies the certificate against the configured host name", 1)
@@ -493,6 +495,50 @@ func c05ConfigProvenance(w *World, r *Report) {
 						}
 					}
 					continue
+				}
+				// load of a struct field that keeps the configuration between two steps (prepare, then use): every
+				// store into that field anywhere in the module must itself be a manager configuration
+				if fa, ok := x.X.(*ssa.FieldAddr); ok && x.Op == token.MUL && helperDepth < 3 {
+					if fld := fieldVarOf(fa); fld != nil {
+						helperDepth++
+						nst, okAll, why := 0, true, ""
+						for g := range allModuleFuncs(w, w.SSA()) {
+							allInstrs(g, func(in ssa.Instruction) {
+								st, isSt := in.(*ssa.Store)
+								if !isSt {
+									return
+								}
+								fa2, isFa := st.Addr.(*ssa.FieldAddr)
+								if !isFa || fieldVarOf(fa2) != fld || isConstNil(st.Val) {
+									return
+								}
+								nst++
+								if okm, w2 := fromManager(st.Val); !okm {
+									if w2 == "literal tls.Config" {
+										mgr := fieldOf(w.Named("internal/socketace", "ClientConnection"), "manager")
+										lit := true
+										for _, r2 := range provenance(st.Val, provOpts{}) {
+											if al, isAl := r2.(*ssa.Alloc); isAl && !dominatedByNilField(g, al, mgr) {
+												lit = false
+											}
+										}
+										if lit {
+											return
+										}
+									}
+									okAll, why = false, "field "+fld.Name()+" is also assigned a value that is "+w2
+								}
+							})
+						}
+						helperDepth--
+						if nst > 0 && okAll {
+							continue
+						}
+						if nst == 0 {
+							return false, "field " + fld.Name() + " is never assigned"
+						}
+						return false, why
+					}
 				}
 				return false, "load of " + x.X.String()
 			case *ssa.Extract:
